@@ -58,9 +58,37 @@ class Sampling:
                     out.append(x)
         return out[0] if len(out) == 1 else None
 
+    def body_entry(self):
+        """First block of the loop body proper: where this round's sample size is read (the condition region before it
+        contains no call other than the pure ones of the condition itself)."""
+        b = self.body
+        ssz = [c.bb for c in b.live_calls() if c.callee == "benchmark::BenchMode::sample_size" and c.bb in self.loop["body"]]
+        return ssz[0] if len(ssz) == 1 and b.dominates(ssz[0], self.pe[0].bb) else None
+
     def cond_rows(self):
         """Rows of the loop condition's decision DAG: list of (decisions{atom_key: bool}, result) with result a bool or
-        an atom key.  Atom keys: (op, classA, classB)."""
+        an atom key.  Atom keys: (op, classA, classB). The result of a path is where it ends: in the loop body (continue)
+        or outside the loop (stop) - whether the condition is computed into a flag tested once or branches straight out
+        of a short-circuit `a && (b || c)`."""
+        b = self.body
+        entry = self.body_entry()
+        if entry is None:
+            return self._cond_rows_flag()
+        exits = {s_ for x in self.loop["body"] for s_ in b.succ[x] if s_ not in self.loop["body"] and not b.blocks[s_].get("cleanup")}
+        ex = Explorer(b, stop_at=[entry] + sorted(exits))
+        ps = ex.run(start=self.loop["header"])
+        rows = []
+        for (path, reason), (dec, env) in zip(ps, ex.states):
+            if reason != "stop":
+                rows.append((None, "path-leaves-condition:" + reason))
+                continue
+            d = {}
+            for key, choice in dec.items():
+                d[self.atom(key)] = (choice != 0)
+            rows.append((d, path[-1] == entry))
+        return rows
+
+    def _cond_rows_flag(self):
         b = self.body
         ex = Explorer(b, stop_at=[self.cond_switch])
         ps = ex.run(start=self.loop["header"])
@@ -204,6 +232,35 @@ class Sampling:
     def atom(self, key):
         if isinstance(key, tuple) and key and key[0] == "cmp":
             return (key[1], self.classify_value(key[2]), self.classify_value(key[3]))
+        if isinstance(key, tuple) and key and key[0] == "call":
+            # `rem_samples == Some(0)` / `!= Some(0)`: no samples remaining, the same event as rem.unwrap_or(1) == 0
+            b = self.body
+            c = b.call_at(key[1])
+            if c is not None and c.callee.rsplit("::", 1)[-1] in ("eq", "ne") and "PartialEq" in c.callee and len(c.args) == 2 and \
+                    c.gargs and "Option<u32>" in c.gargs[0]:
+                sides = []
+                for a in c.args:
+                    srcs = b.prov.op_src(a)
+                    # the variable a reference operand points at: `&rem_samples` through single-definition temporaries
+                    tgt_, l_ = None, (a["p"]["l"] if a.get("k") in ("copy", "move") and not a["p"]["proj"] else None)
+                    for _ in range(4):
+                        defs_ = b.prov.defs.get(l_, []) if l_ is not None else []
+                        if len(defs_) != 1 or defs_[0][0] != "S":
+                            break
+                        rv_ = defs_[0][3]["rv"]
+                        if rv_["k"] == "ref" and not rv_["p"]["proj"]:
+                            tgt_ = rv_["p"]["l"]
+                            break
+                        l_ = rv_["o"]["p"]["l"] if rv_["k"] == "use" and rv_["o"]["k"] in ("copy", "move") and not rv_["o"]["p"]["proj"] else None
+                    if tgt_ is not None and self.classify_local(tgt_) == "rem_samples":
+                        sides.append("rem")
+                    elif {z.a for z in srcs if z.kind == "variant"} == {"std::option::Option::Some"} and \
+                            {str(z.a) for z in srcs if z.kind == "const"} == {"0_u32"} and not any(z.kind in ("param", "call", "phi") for z in srcs):
+                        sides.append("some0")
+                    else:
+                        sides.append("?")
+                if sorted(sides) == ["rem", "some0"]:
+                    return ("Eq" if c.callee.endswith("::eq") else "Ne", "const:0", "unwrap_or(rem_samples,1)")
         if isinstance(key, tuple) and key and key[0] == "not":
             return ("not", self.atom(key[1][1]) if key[1][0] == "s" else key[1])
         return ("?", str(key)[:60])
